@@ -55,17 +55,21 @@ def gen_items(size, in_loop, depth):
         yield ("for", b, None)
 
 
-def feats_of(body, acc=None):
+def feats_of(body, acc=None, depth=0):
     acc = set() if acc is None else acc
+    if depth >= 3:
+        acc.add("nesting>=3")
     for s in body:
         if isinstance(s, str):
             if s in ("break", "continue", "return"):
                 acc.add(s)
+            if s == "DC":
+                acc.add("conditional-expression")
         else:
             acc.add(s[0] if s[2] is None else "if-else")
-            feats_of(s[1], acc)
+            feats_of(s[1], acc, depth + 1)
             if s[2]:
-                feats_of(s[2], acc)
+                feats_of(s[2], acc, depth + 1)
     return acc
 
 
@@ -76,6 +80,10 @@ def render(body, ind, st):
         if s == "D":
             st["d"] += 1
             out.append(f"{pad}x = {10 + st['d']}")
+        elif s == "DC":
+            st["d"] += 2
+            st["c"] += 1
+            out.append(f"{pad}x = {10 + st['d'] - 1} if c{min(st['c'], 3)} else {10 + st['d']}")
         elif s == "U":
             st["u"] += 1
             out.append(f"{pad}u{st['u']} = x")
@@ -101,12 +109,35 @@ def render(body, ind, st):
     return out
 
 
+def chain(k):
+    """if / elif / ... / else with k arms, each arm one definition (nested ifs in the else arms)"""
+    if k == 1:
+        return ["D"]
+    return [("if", ["D"], chain(k - 1))]
+
+
+def then_chain(k):
+    if k == 1:
+        return ["D"]
+    return [("if", then_chain(k - 1), ["D"])]
+
+
+EXTRA = [
+    chain(3) + ["U"], chain(4) + ["U"], chain(5) + ["U"], then_chain(4) + ["U"], then_chain(5) + ["U"],
+    ["D"] + chain(4) + ["U"], chain(4) + ["D", "U"], [("while", chain(4) + ["U"], None)],
+    ["DC", "U"], ["D", "DC", "U"], [("if", ["DC"], None), "U"], [("if", ["DC"], ["D"]), "U"], ["DC", ("if", ["D"], None), "U"],
+    [("while", ["DC", "U"], None)], ["DC", "DC", "U"],
+]
+
+
 def programs(max_size):
     n = 0
-    for size in range(1, max_size + 1):
-        for body in gen_bodies(size, False, 2, None):
+    sized = [(size, body) for size in range(1, max_size + 1) for body in gen_bodies(size, False, 2, None)]
+    sized += [(len(json.dumps(b)) // 8, b) for b in EXTRA]
+    for size, body in sized:
+        if True:
             flat = json.dumps(body)
-            if '"U"' not in flat or '"D"' not in flat:
+            if '"U"' not in flat or '"D' not in flat:
                 continue
             name = f"entry_{n}"
             n += 1
@@ -181,8 +212,15 @@ def run_batch(batch):
             cfg = ld.get_method_cfg(mid)
             edges = {(int(a), int(b)) for a, b in cfg.edges()}
             rd_in = classical_rd(vm, mrow, edges)
-            const_of = {sid: str(rr.get("operand")) for sid, rr in vm.by_id.items()
-                        if rr.get("operation") == "assign_stmt" and rr.get("target") == "x"}
+            temp_consts = {}
+            for sid0, rr in vm.by_id.items():
+                if rr.get("operation") == "assign_stmt" and str(rr.get("target", "")).startswith("%") and "operator" not in rr:
+                    temp_consts.setdefault(rr.get("target"), set()).add(str(rr.get("operand")))
+            const_of = {}
+            for sid0, rr in vm.by_id.items():
+                if rr.get("operation") == "assign_stmt" and rr.get("target") == "x":
+                    opnd = str(rr.get("operand"))
+                    const_of[sid0] = temp_consts.get(opnd, {opnd}) if opnd.startswith("%") else {opnd}
             use_stmts = [sid for sid, rr in vm.by_id.items() if rr.get("operation") == "assign_stmt" and rr.get("operand") == "x"
                          and str(rr.get("target", "")).startswith("u") and sid in {n for e in edges for n in e}]
             # dynamic truth over all decision vectors with every loop body run at most once
@@ -226,9 +264,9 @@ def run_batch(batch):
             cmp = []
             for sid in sorted(use_stmts):
                 o, unk = obs.get((sid, "x"), (set(), False))
-                classical = sorted(const_of[d] for d in rd_in.get(sid, set()) if d in const_of)
+                classical = sorted({c for d in rd_in.get(sid, set()) if d in const_of for c in const_of[d]})
                 ul = loops_of(sid)
-                outside = sorted(const_of[d] for d in const_of if ul - loops_of(d))      # definitions outside a loop that contains the use
+                outside = sorted({c for d in const_of if ul - loops_of(d) for c in const_of[d]})      # definitions outside a loop that contains the use
                 cmp.append((sid, sorted(truth.get(sid, set())), sorted(o), unk, classical, (sid, "x") in obs, outside))
             res.append((name, "ok", cmp))
     finally:
